@@ -156,9 +156,25 @@ def ceval(e: ast.AST, env: dict, stubs: dict | None = None):
             return pe.call(e.func.id, argv, st_)
         if isinstance(e.func, ast.Name) and e.func.id in stubs.get("__calls__", {}) and not e.keywords:
             return call_function(e.func.id, [_arg(a, env, stubs) for a in e.args], stubs, env)
+        if isinstance(e.func, ast.Name) and "__pe__" in stubs and e.func.id in getattr(stubs["__pe__"][0], "opaque_classes", ()) and e.func.id not in env:
+            for a in e.args:
+                _arg(a, env, stubs)
+            return Opaque(e.func.id)
+        if isinstance(e.func, ast.Attribute) and isinstance(e.func.value, ast.Name) and e.func.value.id == "re" and "re" not in env \
+                and e.func.attr in ("findall", "match", "fullmatch", "search", "split", "sub", "compile", "finditer"):
+            import re as _re
+            argv = [ceval(a, env, stubs) for a in e.args]
+            if any(isinstance(a, _Unknown) for a in argv):
+                return next(a for a in argv if isinstance(a, _Unknown))
+            r_ = getattr(_re, e.func.attr)(*argv)
+            return list(r_) if e.func.attr in ("findall", "split", "finditer") else r_
         if isinstance(e.func, ast.Attribute):
             recv = ceval(e.func.value, env, stubs)
             m = e.func.attr
+            if isinstance(recv, Opaque):
+                for a in e.args:
+                    _arg(a, env, stubs)
+                return UNKNOWN
             if isinstance(recv, _Unknown):
                 for a in e.args:
                     _arg(a, env, stubs)
@@ -315,6 +331,20 @@ class _Unknown:
 UNKNOWN = _Unknown()
 
 
+class Opaque:
+    """an instance of a class of the repository whose inside is not followed: it is an object (so it is not None), what its
+    methods give back is unknown, and it refuses to be used as a truth value"""
+
+    def __init__(self, cls: str):
+        self.cls = cls
+
+    def __bool__(self):
+        raise UnknownValue()
+
+    def __repr__(self):
+        return f"<{self.cls} object>"
+
+
 class _Leave(BaseException):
     def __init__(self, how="leave", value=None):
         self.how = how
@@ -380,6 +410,8 @@ def _run(stmts, env, stubs):
         if isinstance(st, ast.If):
             try:
                 take = bool(ceval(st.test, env, stubs))
+            except (NameError, UnboundLocalError):
+                raise
             except Exception as ex:
                 if not isinstance(ex, UnknownValue):
                     _gap(stubs, f"test `{norm(st.test)[:60]}`: {ex}")
@@ -418,6 +450,8 @@ def _run(stmts, env, stubs):
                     a, b = e1.get(k, UNKNOWN), e2.get(k, UNKNOWN)
                     try:
                         same = (a is b) or (type(a) is type(b) and a == b)
+                    except (NameError, UnboundLocalError):
+                        raise
                     except Exception:
                         same = False
                     env[k] = a if same else UNKNOWN
@@ -429,6 +463,8 @@ def _run(stmts, env, stubs):
             else:
                 try:
                     v = ceval(st.value, env, stubs)
+                except (NameError, UnboundLocalError):
+                    raise
                 except Exception:
                     for t in st.targets:
                         _unbind(t, env)
@@ -437,6 +473,8 @@ def _run(stmts, env, stubs):
                 if isinstance(t, (ast.Name, ast.Tuple, ast.List)):
                     try:
                         _bind(t, v, env)
+                    except (NameError, UnboundLocalError):
+                        raise
                     except Exception:
                         if strict:
                             for nm in _stored_names(t):
@@ -449,6 +487,8 @@ def _run(stmts, env, stubs):
                         box = type(env[t.value.id])(env[t.value.id])
                         box[k_] = v
                         env[t.value.id] = box
+                    except (NameError, UnboundLocalError):
+                        raise
                     except Exception:
                         env[t.value.id] = UNKNOWN
         elif isinstance(st, ast.AnnAssign):
@@ -458,6 +498,8 @@ def _run(stmts, env, stubs):
                 else:
                     try:
                         env[st.target.id] = ceval(st.value, env, stubs)
+                    except (NameError, UnboundLocalError):
+                        raise
                     except Exception:
                         env.pop(st.target.id, None)
         elif isinstance(st, ast.AugAssign):
@@ -465,6 +507,8 @@ def _run(stmts, env, stubs):
                 try:
                     op = _BIN[type(st.op)]
                     env[st.target.id] = op(env[st.target.id], ceval(st.value, env, stubs))
+                except (NameError, UnboundLocalError):
+                    raise
                 except Exception:
                     if strict:
                         env[st.target.id] = UNKNOWN
@@ -480,6 +524,8 @@ def _run(stmts, env, stubs):
                 v = _value(st.value.value, env, stubs, "yield from")
                 try:
                     env["__yields__"].extend(list(v))
+                except (NameError, UnboundLocalError):
+                    raise
                 except Exception:
                     env["__yields__"].append(UNKNOWN)
                     _gap(stubs, "yield from an unknown sequence")
@@ -497,6 +543,8 @@ def _run(stmts, env, stubs):
                         box = type(box)(box)          # containers of the initial environment are not shared between passes
                         getattr(box, c.func.attr)(v)
                         env[c.func.value.id] = box
+                except (NameError, UnboundLocalError):
+                    raise
                 except Exception:
                     if strict:
                         env[c.func.value.id] = UNKNOWN
@@ -510,6 +558,8 @@ def _run(stmts, env, stubs):
         elif isinstance(st, ast.For):
             try:
                 items = list(ceval(st.iter, env, stubs))
+            except (NameError, UnboundLocalError):
+                raise
             except Exception as ex:
                 if strict:
                     if not isinstance(ex, UnknownValue):
@@ -526,6 +576,8 @@ def _run(stmts, env, stubs):
             for it in items:
                 try:
                     _bind(st.target, it, env)
+                except (NameError, UnboundLocalError):
+                    raise
                 except Exception:
                     _unbind(st, env)
                     break
@@ -547,6 +599,8 @@ def _run(stmts, env, stubs):
                 if not strict:
                     try:
                         v = ceval(st.value, env, stubs)
+                    except (NameError, UnboundLocalError):
+                        raise
                     except Exception:
                         v = UNKNOWN
             raise _Leave("return", v)
@@ -631,6 +685,8 @@ class PathEval:
         self.gaps: list[str] = []
         self.depth = 0
         self.try_depth = 0
+        self.opaque_classes: set[str] = set()      # names of repository classes whose instances are not followed
+        self.stop: dict[int, str] = {}             # id(statement) -> tag: a path that arrives there ends, leaving as 'stop:<tag>'
 
     def gap(self, what: str):
         self.gaps.append(what)
@@ -655,6 +711,8 @@ class PathEval:
                 raise _ProgExc(ex)
             self.gap(f"{what or norm(e)[:50]}: {type(ex).__name__} {ex}")
             return GAP
+        except (NameError, UnboundLocalError):
+            raise
         except Exception as ex:
             self.gap(f"{what or norm(e)[:50]}: {type(ex).__name__} {ex}")
             return GAP
@@ -671,6 +729,8 @@ class PathEval:
             self.gap(f"test `{norm(e)[:50]}`: {ex}")
             return None
         except _Leave:
+            raise
+        except (NameError, UnboundLocalError):
             raise
         except Exception as ex:
             self.gap(f"test `{norm(e)[:50]}`: {type(ex).__name__} {ex}")
@@ -720,6 +780,8 @@ class PathEval:
         vals = [(st_.yields if is_gen else v_) for st_, v_ in outs]
         try:
             same = all(type(v) is type(vals[0]) and v == vals[0] for v in vals[1:])
+        except (NameError, UnboundLocalError):
+            raise
         except Exception:
             same = False
         return vals[0] if same else UNKNOWN
@@ -739,6 +801,9 @@ class PathEval:
             nxt = []
             for s in states:
                 s.trace.add(id(node))
+                if id(node) in self.stop:
+                    lefts.append((s, "stop:" + self.stop[id(node)], None))
+                    continue
                 try:
                     f, l = self.stmt(node, s)
                 except _Leave as lv:
@@ -761,6 +826,8 @@ class PathEval:
                 vals = list(v)
                 if len(vals) != len(target.elts):
                     raise ValueError
+            except (NameError, UnboundLocalError):
+                raise
             except Exception:
                 vals = [GAP if isinstance(v, _GapUnknown) else UNKNOWN] * len(target.elts)
             for t_, x_ in zip(target.elts, vals):
@@ -771,6 +838,8 @@ class PathEval:
             if isinstance(obj, (dict, list)) and not isinstance(k, _Unknown):
                 try:
                     obj[k] = v
+                except (NameError, UnboundLocalError):
+                    raise
                 except Exception as ex:
                     self.gap(f"store `{norm(target)[:40]}`: {type(ex).__name__}")
             elif isinstance(obj, (dict, list)):
@@ -818,6 +887,8 @@ class PathEval:
                     new = cur
                 else:
                     new = _BIN[type(node.op)](cur, v)
+            except (NameError, UnboundLocalError):
+                raise
             except Exception:
                 new = GAP if isinstance(cur, _GapUnknown) or isinstance(v, _GapUnknown) else UNKNOWN
             self._store(node.target, new, s)
@@ -837,6 +908,8 @@ class PathEval:
                 v = self.ev(c.value, s)
                 try:
                     s.yields.extend(list(v))
+                except (NameError, UnboundLocalError):
+                    raise
                 except Exception:
                     self.gap("yield from a sequence that is not known")
                 return [s], []
@@ -851,6 +924,8 @@ class PathEval:
                     else:
                         try:
                             getattr(recv, c.func.attr)(*args)
+                        except (NameError, UnboundLocalError):
+                            raise
                         except Exception as ex:
                             self.gap(f"`{norm(c)[:50]}`: {type(ex).__name__}")
                 self._poison(s)
@@ -868,6 +943,8 @@ class PathEval:
             self._poison(s)
             try:
                 items = None if isinstance(it, _Unknown) else list(it)
+            except (NameError, UnboundLocalError):
+                raise
             except Exception:
                 items = None
             if items is None or len(items) > 64:
@@ -963,6 +1040,8 @@ class PathEval:
                     obj, k = self.ev(t_.value, s), self.ev(t_.slice, s)
                     try:
                         del obj[k]
+                    except (NameError, UnboundLocalError):
+                        raise
                     except Exception:
                         pass
                 elif isinstance(t_, ast.Name):
